@@ -12,6 +12,7 @@ import (
 	"sort"
 	"strconv"
 	"strings"
+	"sync"
 	"time"
 
 	"golang.org/x/sync/semaphore"
@@ -288,80 +289,123 @@ func runC06paths(r resIface, cfg *c06cfg, rng *prng.R, scratch string, idx int) 
 			r.Inconcl("rump path watchdog")
 		}
 	}
-	// ---- 4. incremental: one table command per key, script commands and the bookkeeping command in between
+	// ---- 4. incremental: one table command per key, script commands and the bookkeeping command in between.
+	// Several stream orders run concurrently: order r starts with the keys of database a_r, then those of b_r (every
+	// ordered pair of databases leads one stream), then everything else shuffled, so that every "first SELECT x, then
+	// SELECT y" prefix and many later switches are driven.
 	{
 		cfg.apply(baseConf())
-		srv := miniredis.NewServer()
-		conn := srv.NewConn()
-		conn.BlockReceive = true
-		pr, pw := io.Pipe()
-		node := &slot.SyncNode{Id: idx*10 + 4, Source: "10.1.1.1:6379", Target: []string{"127.0.0.1:1"}, SlotLeftBoundary: -1, SlotRightBoundary: -1}
-		ds := dbSync.NewDbSyncer(node, -1, semaphore.NewWeighted(1))
-		ds.VerifRunIncr(bufio.NewReaderSize(pr, 1<<16), conn, 0, e2eRunID, 100, 8, 65535)
-		var cmds []srcCmd
-		cur := -1
-		nScript := 0
-		for i, k := range ks {
-			if k.DB != cur {
-				cur = k.DB
-				cmds = append(cmds, srcCmd{Name: "SELECT", Args: [][]byte{[]byte(strconv.Itoa(cur))}})
-			}
-			cmds = append(cmds, srcCmd{Name: rng.PickS("SET", "set", "SeT"), Args: [][]byte{[]byte(k.Key), []byte("v")}})
-			switch i % 9 {
-			case 3:
-				cmds = append(cmds, srcCmd{Name: rng.PickS("EVAL", "eval"), Args: [][]byte{[]byte("return 1"), []byte("0")}})
-				nScript++
-			case 5:
-				cmds = append(cmds, srcCmd{Name: rng.PickS("SCRIPT", "Script"), Args: [][]byte{[]byte("load"), []byte("return 2")}})
-				nScript++
-			case 6:
-				cmds = append(cmds, srcCmd{Name: rng.PickS("EVALSHA", "evalsha"), Args: [][]byte{[]byte("da39a3ee5e6b4b0d3255bfef95601890afd80709"), []byte("0")}})
-				nScript++
-			case 7:
-				cmds = append(cmds, srcCmd{Name: rng.PickS("opinfo", "OPINFO"), Args: [][]byte{[]byte("x")}})
+		dbsAll := []int{0, 1, 2, 5}
+		type order struct{ a, b int }
+		orders := []order{{-1, -1}}
+		for _, a := range dbsAll {
+			for _, b := range dbsAll {
+				if a != b {
+					orders = append(orders, order{a, b})
+				}
 			}
 		}
-		pw.Write(streamBytes(cmds))
-		want := c06expect(ks, cfg, "incr")
-		waitUntil(5*time.Second, func() bool { return len(targetSet(srv)) >= len(want) })
-		time.Sleep(600 * time.Millisecond) // one more flush-ticker period: anything wrongly forwarded shows up
-		judge("incr", targetSet(srv))
-		// script commands and the bookkeeping command
-		srv.Mu.Lock()
-		gotScripts, gotOpinfo := 0, 0
-		dbOfScript := 0
-		_ = dbOfScript
-		for _, l := range srv.Log {
-			switch l.Name {
-			case "eval", "evalsha", "script":
-				gotScripts++
-			case "opinfo":
-				gotOpinfo++
-			}
+		type incrOut struct {
+			got        map[string]bool
+			scripts    int
+			opinfo     int
+			wantScript int
 		}
-		srv.Mu.Unlock()
-		if gotOpinfo > 0 {
-			r.Violation(sig("incr", "bookkeeping-command-forwarded"), fmt.Sprintf("%d opinfo commands reached the target", gotOpinfo), cfg)
+		outs := make([]incrOut, len(orders))
+		var wg sync.WaitGroup
+		for oi, od := range orders {
+			wg.Add(1)
+			orng := rng.Split(uint64(oi))
+			go func(oi int, od order, orng *prng.R) {
+				defer wg.Done()
+				srv := miniredis.NewServer()
+				conn := srv.NewConn()
+				conn.BlockReceive = true
+				pr, pw := io.Pipe()
+				node := &slot.SyncNode{Id: idx*100 + 40 + oi, Source: "10.1.1.1:6379", Target: []string{"127.0.0.1:1"}, SlotLeftBoundary: -1, SlotRightBoundary: -1}
+				ds := dbSync.NewDbSyncer(node, -1, semaphore.NewWeighted(1))
+				ds.VerifRunIncr(bufio.NewReaderSize(pr, 1<<16), conn, 0, e2eRunID, 100, 8, 65535)
+				var first, second, rest []c06key
+				for _, pi := range orng.Perm(len(ks)) {
+					k := ks[pi]
+					switch {
+					case k.DB == od.a && len(first) < 3:
+						first = append(first, k)
+					case k.DB == od.b && len(second) < 3:
+						second = append(second, k)
+					default:
+						rest = append(rest, k)
+					}
+				}
+				ordered := append(append(first, second...), rest...)
+				var cmds []srcCmd
+				cur := -1
+				for i, k := range ordered {
+					if k.DB != cur {
+						cur = k.DB
+						cmds = append(cmds, srcCmd{Name: "SELECT", Args: [][]byte{[]byte(strconv.Itoa(cur))}})
+					}
+					cmds = append(cmds, srcCmd{Name: orng.PickS("SET", "set", "SeT"), Args: [][]byte{[]byte(k.Key), []byte("v")}})
+					switch i % 9 {
+					case 3:
+						cmds = append(cmds, srcCmd{Name: orng.PickS("EVAL", "eval"), Args: [][]byte{[]byte("return 1"), []byte("0")}})
+					case 5:
+						cmds = append(cmds, srcCmd{Name: orng.PickS("SCRIPT", "Script"), Args: [][]byte{[]byte("load"), []byte("return 2")}})
+					case 6:
+						cmds = append(cmds, srcCmd{Name: orng.PickS("EVALSHA", "evalsha"), Args: [][]byte{[]byte("da39a3ee5e6b4b0d3255bfef95601890afd80709"), []byte("0")}})
+					case 7:
+						cmds = append(cmds, srcCmd{Name: orng.PickS("opinfo", "OPINFO"), Args: [][]byte{[]byte("x")}})
+					}
+				}
+				pw.Write(streamBytes(cmds))
+				want := c06expect(ks, cfg, "incr")
+				waitUntil(5*time.Second, func() bool { return len(targetSet(srv)) >= len(want) })
+				time.Sleep(600 * time.Millisecond) // one more flush-ticker period: anything wrongly forwarded shows up
+				o := incrOut{got: targetSet(srv)}
+				srv.Mu.Lock()
+				for _, l := range srv.Log {
+					switch l.Name {
+					case "eval", "evalsha", "script":
+						o.scripts++
+					case "opinfo":
+						o.opinfo++
+					}
+				}
+				srv.Mu.Unlock()
+				cur = -1
+				ref := cfg.ref()
+				for _, c := range cmds {
+					n := strings.ToLower(c.Name)
+					if n == "select" {
+						cur, _ = strconv.Atoi(string(c.Args[0]))
+					}
+					if (n == "eval" || n == "evalsha" || n == "script") && !cfg.Lua && !ref.DBExcluded(cur) {
+						o.wantScript++
+					}
+				}
+				outs[oi] = o
+			}(oi, od, orng)
 		}
-		// expected script commands: all when filter.lua is off (and their database passes), none when on
-		wantScripts := 0
-		cur = -1
-		ref := cfg.ref()
-		for _, c := range cmds {
-			n := strings.ToLower(c.Name)
-			if n == "select" {
-				cur, _ = strconv.Atoi(string(c.Args[0]))
+		wg.Wait()
+		for oi, o := range outs {
+			if !judge("incr", o.got) {
+				r.Count("incr_order_with_violation", 1)
+				_ = oi
+				break
 			}
-			if (n == "eval" || n == "evalsha" || n == "script") && !cfg.Lua && !ref.DBExcluded(cur) {
-				wantScripts++
+			r.Count("incr_stream_orders", 1)
+			if o.opinfo > 0 {
+				r.Violation(sig("incr", "bookkeeping-command-forwarded"), fmt.Sprintf("%d opinfo commands reached the target", o.opinfo), cfg)
+				break
 			}
-		}
-		if gotScripts != wantScripts {
-			o := "script-command-dropped"
-			if gotScripts > wantScripts {
-				o = "script-command-forwarded-under-filter-lua"
+			if o.scripts != o.wantScript {
+				x := "script-command-dropped"
+				if o.scripts > o.wantScript {
+					x = "script-command-forwarded-under-filter-lua"
+				}
+				r.Violation(sig("incr", x), fmt.Sprintf("%d script commands reached the target, expected %d (filter.lua=%v)", o.scripts, o.wantScript, cfg.Lua), cfg)
+				break
 			}
-			r.Violation(sig("incr", o), fmt.Sprintf("%d script commands reached the target, expected %d (filter.lua=%v)", gotScripts, wantScripts, cfg.Lua), cfg)
 		}
 	}
 	// ---- Lua scripts of the RDB: excluded exactly when filter.lua is set
